@@ -40,6 +40,20 @@ var registry = map[string]*Check{}
 
 func Register(c *Check) { registry[c.ID] = c }
 
+// Extend adds another enumeration family to an already registered check (run after its own Run, in every worker).
+func Extend(id string, rule string, run func(c *Ctx)) {
+	chk := registry[id]
+	if chk == nil {
+		panic("core.Extend: unknown check " + id)
+	}
+	prev := chk.Run
+	chk.Rule += "; " + rule
+	chk.Run = func(c *Ctx) {
+		prev(c)
+		run(c)
+	}
+}
+
 type Violation struct {
 	Sig    string          `json:"sig"`
 	Msg    string          `json:"msg"`
